@@ -584,6 +584,8 @@ class BaseART(BaseEstimator, ClusterMixin):
 
         self.W: List[np.ndarray] = []
         self.labels_ = np.zeros((X.shape[0],), dtype=int)
+        self.sample_counter_ = 0
+        self.weight_sample_counter_ = []
         for _ in range(max_iter):
             if verbose:
                 from tqdm import tqdm
